@@ -6,6 +6,9 @@ import (
 	"bufio"
 	"encoding/json"
 	"fmt"
+	"hash/adler32"
+	"hash/crc32"
+	"hash/fnv"
 	"os"
 
 	"github.com/wolimst/lib-secs2-hsms-go/pkg/ast"
@@ -99,6 +102,27 @@ func driverCtrlReplay(c *Ctx) {
 		c.emit(i, J{"ev": "ctrlcase", "want": raw, "real": real})
 		c.count("ctrl.cases")
 	}
+}
+
+// collidingHeaders finds two different control-message headers of one kind whose images under h are equal (birthday
+// search over the system bytes): what a cache keyed by a checksum alone would confuse.
+func collidingHeaders(stype byte, sid uint16, h func([]byte) uint32, framed bool) (a, b []byte, ok bool) {
+	seen := map[uint32][]byte{}
+	for n := uint32(1); n < 3000000; n++ {
+		x := n * 2654435761 // spread over all four system bytes ...
+		y := n*40503 + uint32(sid) // ... and the session id (a CRC is a bijection on any four bytes alone)
+		hdr := []byte{byte(y >> 8), byte(y), 0, 0, 0, stype, byte(x >> 24), byte(x >> 16), byte(x >> 8), byte(x)}
+		in := hdr
+		if framed {
+			in = append([]byte{0, 0, 0, 10}, hdr...)
+		}
+		k := h(in)
+		if p, dup := seen[k]; dup && string(p) != string(hdr) {
+			return p, hdr, true
+		}
+		seen[k] = hdr
+	}
+	return nil, nil, false
 }
 
 func mkCtrl(kind string, sid uint16, sys []byte, code byte) ast.HSMSMessage {
@@ -264,6 +288,35 @@ func driverCtrl(c *Ctx) {
 				}
 				c.emit(ci, ev)
 				c.count("ctrl.pairing")
+			}
+			ci++
+		}
+	}
+	// (c') pairs of different messages of one kind with equal 32-bit checksums (CRC-32 IEEE and Castagnoli, FNV-1 and
+	// FNV-1a, Adler-32; of the header and of the whole frame), decoded one after the other: the second is itself
+	hashes := []func([]byte) uint32{
+		crc32.ChecksumIEEE,
+		func(b []byte) uint32 { return crc32.Checksum(b, crc32.MakeTable(crc32.Castagnoli)) },
+		func(b []byte) uint32 { f := fnv.New32(); f.Write(b); return f.Sum32() },
+		func(b []byte) uint32 { f := fnv.New32a(); f.Write(b); return f.Sum32() },
+		adler32.Checksum,
+	}
+	for hi, h := range hashes {
+		for _, framed := range []bool{false, true} {
+			if c.want(ci) {
+				stype := []byte{1, 2, 3, 5, 9}[hi]
+				a, b, found := collidingHeaders(stype, uint16(hi), h, framed)
+				if found {
+					decodeEvent(append([]byte{0, 0, 0, 10}, a...))
+					m := ast.NewHSMSControlMessage(clone(b))
+					ev := decodeEvent(m.ToBytes())
+					ev["ev"] = "ctrlraw"
+					ev["hdr"] = bytesJ(b)
+					ev["type"] = typeOf(m)
+					ev["again"] = bytesJ(m.ToBytes())
+					c.emit(ci, ev)
+					c.count("ctrl.collision-pairs")
+				}
 			}
 			ci++
 		}
